@@ -94,6 +94,10 @@ func ruleL0(r *Report) {
 	sort.Strings(names)
 	for _, n := range names {
 		fi := fns[n]
+		if L.lockWrapper(fi.fn) != nil {
+			h.OK(n, r.P.Pos(fi.fn.Pos()), "lock wrapper (one lock operation, nothing else): every call of it is read as that operation and balanced in the caller")
+			continue
+		}
 		if u, bad := unb[n]; bad {
 			o := h.Bad(n, r.P.InstrPos(u.Exit), fmt.Sprintf("unbalanced: entered with {%s}, reaches this exit with {%s}", u.Entry, u.AtEnd))
 			o.Path = u.Ctx.PathNames()
@@ -223,7 +227,7 @@ func applySites(r *Report) map[ssa.Instruction][]LSite {
 			return true
 		}
 		if cc.IsInvoke() && cc.Method.Name() == "Apply" && isNamed(cc.Value.Type(), ModPath, "Column") {
-			return fnName(ins.Parent()) != "(*column.column).Apply"
+			return fnName(topFn(ins.Parent())) != "(*column.column).Apply" // a closure of the wrapper is the wrapper
 		}
 		return false
 	})
@@ -477,6 +481,12 @@ func ruleShard(r *Report) {
 				}
 				if fr, ok := fieldOf(st.Addr); ok && fr.Struct == "column.Txn" && fr.Field == "cursor" {
 					c, ok := shard.(*ssa.Call)
+					if ok {
+						// the latch was taken through a wrapper that maps an offset to its block and returns it
+						if w := L.lockWrapper(c.Call.StaticCallee()); w != nil && w.shardViaChunkAt && w.returnsShard && w.shardParam < len(c.Call.Args) && sameExpr(c.Call.Args[w.shardParam], st.Val) {
+							return
+						}
+					}
 					if !ok || !calleeIs(&c.Call, "commit.ChunkAt") || !sameExpr(c.Call.Args[0], st.Val) {
 						msg = fmt.Sprintf("%s positions the cursor on %s but the shard %s is not commit.ChunkAt of that value", r.P.InstrPos(ins), st.Val.Name(), shard.Name())
 					}
@@ -934,6 +944,46 @@ func ruleL5id(r *Report) {
 				}
 			}
 		})
+		if !passed && isHelper(topFn(fn)) && fn.Parent() == nil {
+			// the id is drawn in a helper that returns it: the helper's one caller hands it on
+			idx := -1
+			for _, ret := range returnsOf(fn) {
+				at := -1
+				for i, res := range ret.Results {
+					if sameExpr(res, call) {
+						at = i
+					}
+				}
+				if at < 0 || (idx >= 0 && at != idx) {
+					idx = -2
+					break
+				}
+				idx = at
+			}
+			if site := uniqueCallOf(fn); idx >= 0 && site != nil {
+				sv, _ := site.(ssa.Value)
+				isID := func(a ssa.Value) bool {
+					a = norm(a)
+					if sv == nil {
+						return false
+					}
+					if fn.Signature.Results().Len() == 1 {
+						return a == sv
+					}
+					ex, ok := a.(*ssa.Extract)
+					return ok && ex.Tuple == sv && ex.Index == idx
+				}
+				deepVisit(site.Parent(), func(i2, _ ssa.Instruction) {
+					if cc, _, _ := callCommon(i2); cc != nil && cc.StaticCallee() == nil && !cc.IsInvoke() {
+						for _, a := range cc.Args {
+							if isID(a) {
+								passed = true
+							}
+						}
+					}
+				})
+			}
+		}
 		hid.Check(stored, "store/"+n, r.P.InstrPos(ins), "the drawn id is stored as the block's last commit", "the id stored in the commit-id table is not the id drawn for this block")
 		hid.Check(passed, "pass/"+n, r.P.InstrPos(ins), "the drawn id is handed to the commit callback", "the id handed to the commit callback is not the id drawn for this block")
 	}
